@@ -393,8 +393,10 @@ func genCase(t *rapid.T) Case {
 			}
 		}
 		x.idb = fmt.Sprintf("%s:idbase-%d", m.Prefix, i)
-		m.Features = []*sg.Feature{{Name: fmt.Sprintf("f%d", i)}}
-		feats := []string{m.Prefix + ":" + m.Features[0].Name}
+		// every module also has a feature of the same name: written without a prefix, "fshared" means the feature of the
+		// module the statement is written in
+		m.Features = []*sg.Feature{{Name: fmt.Sprintf("f%d", i)}, {Name: "fshared"}}
+		feats := []string{m.Prefix + ":" + m.Features[0].Name, "fshared"}
 		ng := 1 + g.Pick(3, "ngroupings")
 		for k := 0; k < ng; k++ {
 			gr := &sg.Grouping{Name: fmt.Sprintf("g%d-%d", i, k)}
@@ -403,6 +405,12 @@ func genCase(t *rapid.T) Case {
 				refs = append(refs, v.ref)
 			}
 			gr.Kids = x.body(2, refs, g.Chance(2, 3, "nesteduses"))
+			// some nodes of the body depend on the module's "fshared" (unprefixed: the grouping's module)
+			for _, k := range gr.Kids {
+				if (k.Kind == "leaf" || k.Kind == "container" || k.Kind == "list" || k.Kind == "leaf-list") && k.Name != "k" && g.Chance(1, 4, "ownfeature") {
+					k.IfFeatures = []string{"fshared"}
+				}
+			}
 			// some nodes of the body carry their own (weaker than current) status
 			for _, k := range gr.Kids {
 				if k.Kind != "uses" && k.Kind != "choice" && k.Status == "" && g.Chance(1, 4, "ownstatus") {
